@@ -390,7 +390,11 @@ def _parse_attribute_name(name: str) -> str:
     """
 
     def _char_map(idx: int, char: str) -> str:
-        if char.isalnum() or char in ("_", "-", " "):
+        if (char.isalnum() and f"_{char}".isidentifier()) or char in (
+            "_",
+            "-",
+            " ",
+        ):
             return char
         if char in string.whitespace:
             return "_"
@@ -408,7 +412,11 @@ def _parse_attribute_name(name: str) -> str:
     first_chars = set(string.ascii_letters) | {"_"}
     if name[0] not in first_chars:
         name = f"_{name}"
-    if name in RESERVED_PROPERTIES:
+    # Python source normalises identifiers, e.g. "ｉｆ" is the keyword "if".
+    if (
+        name in RESERVED_PROPERTIES
+        or unicodedata.normalize("NFKC", name) in RESERVED_PROPERTIES
+    ):
         name = f"{name}_"
     return name
 
